@@ -329,3 +329,108 @@ contract(F, 'ContiguousBlockAllocator._split', props=('C16',),
          inline=('max', 'ContiguousBlock.split', 'ContiguousBlock.__init__'), opts={'construct': ('ContiguousBlock',)},
          class_modules={'ContiguousBlockAllocator': F, 'ContiguousBlock': F}, native=False,
          note='ContiguousBlock.split executed from its real body; the free lists (dict of sets) are ghost events')
+
+
+# ---- _find_available(n): where the next allocation of n slots comes from ----------------------------------
+# first an exact-size freed block, else any freed block of at least n slots, else the untouched area at the
+# high-water mark - unless it is too small or the block there is in use: then (and only then) "no space".
+FREED_SIZES = z3.Array('freed.sizes', z3.IntSort(), z3.IntSort())       # size key of the i-th dict item
+FREED_NONEMPTY = z3.Function('freed_set_nonempty', z3.IntSort(), z3.BoolSort())   # by size key
+NFREED = z3.Int('freed.len')
+
+
+def fa_getattr(eng, obj, name, st, node):
+    if obj.k == 'obj' and obj.oid == 'self._freed' and name == 'items':
+        def items(eng, args, kwargs, st, node):
+            def get(eng_, i, st_):
+                return vtuple([vint(z3.Select(FREED_SIZES, i)),
+                               V('obj', oid='freed-set', extra={'size': z3.Select(FREED_SIZES, i)})])
+            return [(st, V('seq', extra={'len': NFREED, 'facts': [NFREED >= 0], 'get': get}))]
+        return [(st, V('func', py=('spec', items)))]
+    if obj.k == 'any' and name in ('used', 'start', 'size'):
+        if name == 'used':
+            return [(st, vbool(z3.Function('cba_block_used', VV.Any, z3.BoolSort())(obj.z)))]
+        return [(st, vint((B_START if name == 'start' else B_SIZE)(obj.z)))]
+    return None
+
+
+def fa_contains(eng, container, item, st, node):
+    if container.k == 'obj' and container.oid == 'self._freed' and item.k == 'int':
+        return z3.Function('freed_has_key', z3.IntSort(), z3.BoolSort())(item.z)
+    return None
+
+
+def fa_getitem(eng, obj, idx, st, node):
+    if obj.k == 'obj' and obj.oid == 'self._freed' and idx.k == 'int':
+        return [(st, V('obj', oid='freed-set', extra={'size': idx.z}))]
+    return cba_getitem(eng, obj, idx, st, node)
+
+
+def fa_len(eng, v, st, node):
+    if v.k == 'obj' and v.oid == 'freed-set':
+        n = eng.fresh('set.len', z3.IntSort())
+        st.pc.append(n >= 0)
+        st.pc.append((n > 0) == FREED_NONEMPTY(v.extra['size']))
+        return [(st, vint(n))]
+    return None
+
+
+def fa_to_list(eng, v, st, node):
+    if v.k == 'obj' and v.oid == 'freed-set':
+        return [(st, V('obj', oid='list-of-set', extra={'size': v.extra['size']}))]
+    return None
+
+
+def fa_choice(eng, selfv, args, kwargs, st, node):
+    a = args[0]
+    r = V('obj', oid='chosen', extra={'size': a.extra['size']})
+    st.trace.append(('choice', a.extra['size']))
+    return [(st, r)]
+
+
+def fa_inv(c, L):
+    # no freed set visited so far was both big enough and non-empty
+    k = z3.Int('k')
+    return z3.ForAll([k], z3.Implies(z3.And(k >= 0, k < L.i), z3.Not(z3.And(
+        z3.Select(FREED_SIZES, k) >= c.n, FREED_NONEMPTY(z3.Select(FREED_SIZES, k))))))
+
+
+def fa_post(c):
+    s = c.pre.self
+    r = c.resultv
+    off = s.addr_offset
+    k = z3.Int('k')
+    has = z3.Function('freed_has_key', z3.IntSort(), z3.BoolSort())
+    used = z3.Function('cba_block_used', VV.Any, z3.BoolSort())
+    exact = z3.And(has(c.n), FREED_NONEMPTY(c.n))
+    none_fits = z3.ForAll([k], z3.Implies(z3.And(k >= 0, k < NFREED), z3.Not(z3.And(
+        z3.Select(FREED_SIZES, k) >= c.n, FREED_NONEMPTY(z3.Select(FREED_SIZES, k))))))
+    top_slot = SLOT(s.top - off)
+    no_room = z3.Or(s.top + c.n - off > s.size, used(top_slot))
+    ch = [e for e in c.trace if e[0] == 'choice']
+    if r.k == 'obj' and r.oid == 'chosen':
+        size = r.extra['size']
+        # a freed block: of exactly n slots if there is one, else of at least n
+        return z3.And(z3.BoolVal(len(ch) == 1), FREED_NONEMPTY(size), size >= c.n,
+                      z3.Implies(exact, size == c.n))
+    if r.k == 'none':
+        return z3.And(z3.Not(exact), none_fits, no_room)                 # "no space" only then
+    if r.k == 'any':
+        return z3.And(z3.Not(exact), none_fits, z3.Not(no_room), r.z == top_slot)   # the untouched area at the top
+    return z3.BoolVal(False)
+
+
+contract(F, 'ContiguousBlockAllocator._find_available', props=('C16',),
+         params={'self': 'self', 'n': 'int'},
+         requires=lambda c: c.n >= 1,
+         ensures=[('exact-size-freed-block,else-a-larger-freed-one,else-the-top-area,else-no-space', fa_post)],
+         loops={0: Loop(inv=fa_inv, kinds={'size': 'int', 'set_': (lambda eng, n: V('obj', oid='havoc'))})},
+         modifies=[],
+         fields={'ContiguousBlockAllocator': {'_array': 'obj', 'addr_offset': 'int', 'top': 'int', 'size': 'int',
+                                              'pos': 'int', '_freed': 'obj'}},
+         hooks={'getattr': fa_getattr, 'contains': fa_contains, 'getitem': fa_getitem, 'len': fa_len,
+                'to_list': fa_to_list},
+         policies={'sc3/base/builtins.py::choice': fa_choice},
+         class_modules={'ContiguousBlockAllocator': F}, native=False,
+         note='the free lists are a dictionary size -> set of blocks: an uninterpreted sequence of size keys with a '
+              'ghost non-emptiness per key; which block of a set is chosen is bi.choice\'s (any of them)')
